@@ -1,11 +1,15 @@
 // Correspondence harness for daemon/src/fsm.rs (properties C07, C08).
-// Included as a child module of `fsm` under cfg(all(test, osrg_rustybgp_verif)).
+// Included as the body of `fsm::verif_hx` under cfg(all(test, osrg_rustybgp_verif)).
 use super::*;
 
-#[path = "/verif/harness/common/val.rs"]
-mod val;
-#[path = "/verif/harness/common/caps.rs"]
-mod caps;
+#[allow(dead_code)]
+mod val {
+    include!(concat!(env!("VERIF_HX_DIR"), "/common/val.rs"));
+}
+#[allow(dead_code)]
+mod caps {
+    include!(concat!(env!("VERIF_HX_DIR"), "/common/caps.rs"));
+}
 use caps::*;
 use val::Val;
 
